@@ -1067,6 +1067,8 @@ class Analysis:
             cache[nid] = False       # (cycle guard for feedback graphs)
             n = self.spec[nid]
             cache[nid] = n['op'] == 'flatten' or any(self.below_one_to_many(u) for u in n.get('up', []))
+            if n['op'] == 'source' and any(m.get('kind') == 'emit_into' and m.get('target') == nid for m in self.sc['graph']):
+                cache[nid] = True        # values forwarded by a.sink(b.emit) arrive without their metadata
             if not cache[nid]:
                 for fb in self.sc.get('feedback', []):
                     if fb['to'] == nid and self.below_one_to_many(fb['from']):
